@@ -85,6 +85,13 @@ def make_graph(rng):
         g = nx.empty_graph(n)
     else:
         g = nx.empty_graph(1)
+    if rng.random() < 0.15 and g.number_of_nodes() >= 1:
+        # "all non-empty graphs": self-loops are bonds too (they never connect anything), and a dense graph may have a vertex left out
+        for v in rng.sample(list(g.nodes()), rng.randint(1, min(6, g.number_of_nodes()))):
+            g.add_edge(v, v)
+        if rng.random() < 0.6:
+            g.add_node(max(g.nodes()) + 1)
+        g.graph["self_loops"] = True
     # relabel sometimes to non-contiguous / non-int ids
     r = rng.random()
     if r < 0.2:
@@ -202,6 +209,8 @@ def run_case(case):
         N, E = g.number_of_nodes(), g.number_of_edges()
         if g.graph.get("mixed_labels"):
             res.count("graphs_with_labels_of_mixed_type")
+        if g.graph.get("self_loops") or nx.number_of_selfloops(g):
+            res.count("graphs_with_self_loops")
         ctx0 = {"graph_kind": kind, "n": N, "edges": [tuple(e) for e in list(g.edges())[:30]]}
         full = largest_fraction(list(g.nodes()), list(g.edges()))
         nt = False
